@@ -12,6 +12,7 @@ import (
 	"compiler/verifh/c04"
 	"compiler/verifh/c05"
 	"compiler/verifh/c06"
+	"compiler/verifh/c07"
 	"compiler/verifh/c08"
 	"compiler/verifh/c09"
 	"compiler/verifh/c10"
@@ -35,6 +36,7 @@ var checks = map[string]func(*vl.Ctx){
 	"C04": c04.Run,
 	"C05": c05.Run,
 	"C06": c06.Run,
+	"C07": c07.Run,
 	"C08": c08.Run,
 	"C09": c09.Run,
 	"C10": c10.Run,
